@@ -20,8 +20,8 @@ pristine snapshot; inside a scope Quantity(1, <custom>) works for every open sco
 Four parts:
   graph   state-pruned BFS of the whole state graph (state = canonical tables + stack of open scopes), nesting <= 3:
           every operation of the alphabet (all fault kinds, every unwinding distance) is applied in every state
-          (quick: the innermost of three scopes is opened as with-block only and failing steps at depth 3 unwind
-          0 or 3 scopes; thorough: both styles, every unwinding distance)
+          (quick: states of depth 3 only as three nested with-blocks, failing steps there unwind 0 or 3 scopes;
+          thorough: both styles at every level, every unwinding distance)
   hist    un-pruned histories (non-initial states, re-used definition dicts), deviation-ordered by the number of
           failing steps (0, 1, 2): full alphabet to length LF, a core alphabet to length LC
   cycles  three consecutive open/close or failing cycles (repeated open/close of the same set)
@@ -61,7 +61,7 @@ ASSUMPTIONS = [
 NEST = 3
 LF = dict(quick=3, thorough=4)      # un-pruned, full alphabet
 LC = dict(quick=5, thorough=6)      # un-pruned, core alphabet
-LDIP = dict(quick=4, thorough=5)    # DIP program length
+LDIP = dict(quick=3, thorough=4)    # DIP program length
 MAXFAULT = 2
 
 # ----------------------------------------------------------------------------------------------- alphabet: unit sets
@@ -246,9 +246,7 @@ def _owner(hist, tier):
         return "hist"
     if nf <= MAXFAULT and len(hist) <= LC[tier] and _valid(hist, A_CORE):
         return "core"
-    if all(op[0] == "open" for op in hist[:-1]) and _nfaults(hist[:-1]) == 0 and _valid(hist, A_GRAPH) \
-            and not (tier == "quick" and len(hist) > NEST and hist[NEST - 1][2] == "explicit") \
-            and not (tier == "quick" and _quick_skip(tuple(op[1] for op in hist[:-1]), hist[-1])):
+    if _graph_explores(hist, tier):
         return "graph"
     return "cycles"
 
@@ -734,40 +732,63 @@ def _exec(hist, sh, tier=None, part=None, seen=None):
 
 # ----------------------------------------------------------------------------------------------- DIP route
 LINES = dict(
+    # ---- lines that work when their units / nodes are defined
     UL="$unit len = 2 cm",
     UM="$unit mas = 3 g",
     UV="$unit vel = 3 [len]/s",
     UL2="$unit len = 5 m",
-    UB="$unit bad = 2 xyz",
     FW="w float = 3 [len]",
     NI="n int = 3 [mas]",
     FC="v float = 2 cm",
-    FX="x float = 3 [foo]",
     EX="e float = (\"1 [len] + 2 cm\") cm",
     EN="f float = (\"2 cm + 3 cm\") cm",
-    EB="g float = (\"1 [len] + 2 s\") cm",
     CO="c float = 3 [len]\n  !condition (\"{?} > 1 [len]\")",
-    CF="d float = 3 cm\n  !condition (\"{?} < 1 cm\")",
     MO="w = 8 cm",
+    NM="n = 6000 mg",
+    OP="o float = 3 [len]\n  = 3 [len]\n  = 4 cm",
     CA="@case (\"{?w} > 1 [len]\")\n  a int = 1\n@else\n  a int = 2\n@end",
     BE="b bool = (\"{?w} > 1 [len]\")",
+    CF="d float = 3 cm\n  !condition (\"{?} < 1 cm\")",
+    # ---- lines whose statement fails INSIDE the unit scope opened by one of the DIP call sites
+    UB="$unit bad = 2 xyz",                                        # node_unit: unknown unit in the definition
+    UN="$unit bad = abc cm",                                       # node_unit: malformed number
+    FX="x float = 3 [foo]",                                        # node_float: unknown unit
+    FP="p float = 3 k[len]",                                       # node_float: prefix on a custom unit
+    IX="y int = 3 [foo]",                                          # node_integer: unknown unit
+    MB="w = 8 s",                                                  # NumberType.convert (float modification)
+    NB="n = 5 s",                                                  # NumberType.convert (int modification)
+    OB="r float = 3 [len]\n  = 3 [len]\n  = 4 s",                  # NumberType.convert (option with units)
+    EB="g float = (\"1 [len] + 2 s\") cm",                         # numerical solver: incompatible operands
+    EU="h float = (\"1 [foo] + 2 cm\") cm",                        # numerical solver: unknown unit in an atom
+    EC="i float = (\"1 [len] + 2 cm\") s",                         # numerical solver: result conversion refused
+    CX="k float = 3 [len]\n  !condition (\"{?} > 1 s\")",          # logical solver (!condition) raises
+    BX="b2 bool = (\"{?w} > 1 s\")",                               # logical solver (bool node) raises
+    CB="@case (\"{?w} > 1 s\")\n  a2 int = 1\n@end",              # logical solver (@case) raises
 )
 LNAMES = list(LINES)
 DIP_CTX = ["top", "inA", "inLM", "split"]
 # (units that must be defined, nodes that must be defined, units defined, nodes defined, demand)
 #   demand: True = must succeed when requirements hold, False = never succeeds (fault), None = nothing demanded
+_F = ((), (), (), (), False)
 LREQ = dict(
     UL=((), (), ("len",), (), True), UM=((), (), ("mas",), (), True), UV=(("len",), (), ("vel",), (), True),
-    UL2=((), (), ("len",), (), True), UB=((), (), (), (), False),
+    UL2=((), (), ("len",), (), True),
     FW=(("len",), (), (), ("w",), True), NI=(("mas",), (), (), ("n",), True), FC=((), (), (), ("v",), True),
-    FX=((), (), (), (), False), EB=((), (), (), (), False), EX=(("len",), (), (), ("e",), True), EN=((), (), (), ("f",), None),
+    EX=(("len",), (), (), ("e",), True), EN=((), (), (), ("f",), None),
     CO=(("len",), (), (), ("c",), True), CF=((), (), (), ("d",), None), MO=(("len",), ("w",), (), (), True),
+    NM=(("mas",), ("n",), (), (), True), OP=(("len",), (), (), ("o",), True),
     CA=(("len",), ("w",), (), ("a",), True), BE=(("len",), ("w",), (), ("b",), True),
+    UB=_F, UN=_F, FX=_F, FP=_F, IX=_F, MB=_F, NB=_F, OB=_F, EB=_F, EU=_F, EC=_F, CX=_F, BX=_F, CB=_F,
 )
-LFEAT = dict(EX="numerical-expression", EB="numerical-expression-raises",
-             EN="numerical-expression-without-custom-unit", CO="condition", CA="case",
-             BE="logical-expression", MO="modification-converts", UV="unit-defined-from-custom-unit",
-             NI="int-node", FW="float-node")
+LFEAT = dict(EX="numerical-expression", EN="numerical-expression-without-custom-unit", CO="condition", CA="case",
+             BE="logical-expression", MO="modification-converts", NM="modification-converts", OP="options-with-units",
+             UV="unit-defined-from-custom-unit", NI="int-node", FW="float-node",
+             UB="fails-in:node_unit", UN="fails-in:node_unit", FX="fails-in:node_float", FP="fails-in:node_float",
+             IX="fails-in:node_integer", MB="fails-in:convert-modification", NB="fails-in:convert-modification",
+             OB="fails-in:convert-option", EB="fails-in:numerical-solver", EU="fails-in:numerical-solver",
+             EC="fails-in:numerical-solver", CX="fails-in:logical-solver", BX="fails-in:logical-solver",
+             CB="fails-in:logical-solver")
+UNIT_LINES = ("UL", "UM", "UV", "UL2")
 
 
 def _dip_expect(lines, ctx):
@@ -802,7 +823,7 @@ def _dip_case(ctx, lines, split=0):
         raise HarnessError("tables not pristine at the start of a case: %s" % iso.tables_diff())
     case = dict(route="dip", ctx=ctx, lines=list(lines), split=split)
     feats = sorted({LFEAT[ln] for ln in lines if ln in LFEAT})
-    tags = ["ctx:" + ctx] + feats + ["units-defined=%d" % sum(1 for ln in lines if ln.startswith("U") and ln != "UB")]
+    tags = ["ctx:" + ctx] + feats + ["units-defined=%d" % sum(1 for ln in lines if ln in UNIT_LINES)]
     bad = None
     res = None
     try:
@@ -837,6 +858,21 @@ def _dip_case(ctx, lines, split=0):
             if bad is None and exp is True and o[0] == "err":
                 bad = failure("dip-usable", case, "DIP text that defines its units before using them parses",
                               list(o[1:]), tags=tags, behaviour="raises:" + _msg(o))
+            if bad is None and o[0] == "err" and len(lines) >= 2 and _dip_expect(lines[:-1], ctx) is True:
+                # the parse failed in its last line: the same text without that line (it parsed before) must
+                # still parse in this process, twice, and leave the tables as they were
+                for rep in (1, 2):
+                    o2 = outcome(_run_dip, _dip_text(lines[:-1]))
+                    d2 = _diff(entry)
+                    if d2:
+                        bad = failure("dip-parse", case, "tables equal the snapshot taken before DIP.parse()", d2,
+                                      tags=tags + ["reparse-%d" % rep], behaviour=_behaviour(d2))
+                    elif o2[0] == "err":
+                        bad = failure("dip-reparse", case, "the text without its failing line parses again after the "
+                                      "failed parse", list(o2[1:]), tags=tags + ["reparse-%d" % rep],
+                                      behaviour="raises:" + _msg(o2))
+                    if bad is not None:
+                        break
             if bad is None:
                 live = {"inA": ["Xa"], "inLM": ["[mas]"]}.get(ctx, [])
                 for p in live:
@@ -886,7 +922,7 @@ def _dip_explore(ctx, first, maxlen, sh):
                 sh.count("dip-%s-%s" % (ctx, res))
                 exp = _dip_expect(prefix, ctx)
                 sh.count("dip-expected-%s-observed-%s" % ({True: "ok", False: "fault", None: "undemanded"}[exp], res))
-                if len(prefix) >= 2 and any(ln in ("UL", "UM", "UV", "UL2") for ln in prefix):
+                if len(prefix) >= 2 and any(ln in UNIT_LINES for ln in prefix):
                     sh.nontrivial += 1
                 if bad is not None:
                     _report(sh, bad)
@@ -1022,6 +1058,18 @@ def _quick_skip(st, op):
     return False
 
 
+def _graph_explores(hist, tier):
+    """is this history (open* + one operation) executed by the graph part of this tier?"""
+    if not (all(op[0] == "open" for op in hist[:-1]) and _nfaults(hist[:-1]) == 0 and _valid(hist, A_GRAPH)):
+        return False
+    if tier == "quick":
+        if _quick_skip(tuple(op[1] for op in hist[:-1]), hist[-1]):
+            return False
+        if len(hist) > NEST and any(op[2] != "with" for op in hist[:NEST]):
+            return False      # quick: states of depth 3 only as three nested with-blocks
+    return True
+
+
 def _graph(prefix, tier, sh, seen):
     """all states whose stack starts with `prefix` (exactly `prefix` if shorter than 2), every enabled op applied"""
     stack0 = tuple(op[1] for op in prefix)
@@ -1038,6 +1086,8 @@ def _graph(prefix, tier, sh, seen):
                 r = _exec(h + (op,), sh, tier, "graph", seen)
                 sh.count("graph-op:" + op[0])
                 if op[0] == "open" and not _predict_fail(st, op) and len(prefix) == 2 and len(st) + 1 <= NEST:
+                    if tier == "quick" and any(o[2] != "with" for o in h + (op,)):
+                        continue      # quick: states of depth 3 only as three nested with-blocks
                     if r.fail is None and not r.abort:
                         nxt.append(h + (op,))
         frontier = nxt
